@@ -164,6 +164,7 @@ def run(ctx):
         "uniqueness constraints, behaviour over delivery permutations.")
     for r in (rule_transaction, rule_tx_reads, rule_integrity_position):
         ctx.guarded(lambda r=r: r(ctx), "C03")
+    ctx.guarded(lambda: c05.rule_ingest_head(ctx, "C03.3"), "C03")
     ctx.guarded(lambda: c05.rule_backlink_table(ctx, "C03.4"), "C03")
     ctx.guarded(lambda: c05.rule_table(ctx, "C03.5"), "C03")
 
